@@ -1,0 +1,68 @@
+//go:build verif
+
+package security
+
+import (
+	"context"
+	"crypto/tls"
+
+	"github.com/bbockelm/cedar/message"
+	"github.com/bbockelm/cedar/stream"
+)
+
+// Verification hooks for property C13 (decoding is total and bounded).
+// Add-only: thin exported wrappers around unexported length-driven handshake
+// readers, compiled only with -tags verif.
+
+// VerifC13ExchangeKeyClient runs the client side of exchangeKey on s.
+func VerifC13ExchangeKeyClient(ctx context.Context, s *stream.Stream) error {
+	a := &Authenticator{config: &SecurityConfig{}, stream: s}
+	return a.exchangeKey(ctx, &SecurityNegotiation{IsClient: true})
+}
+
+// VerifC13SSLReceiveMessage runs CEDARTLSConnection.receiveMessage on s.
+func VerifC13SSLReceiveMessage(ctx context.Context, s *stream.Stream, isClient bool) ([]byte, error) {
+	a := &Authenticator{config: &SecurityConfig{}, stream: s}
+	c := &CEDARTLSConnection{ctx: ctx, authenticator: a, isClient: isClient}
+	return c.receiveMessage(ctx)
+}
+
+// VerifC13GetIDString exposes getIDString.
+func VerifC13GetIDString(ctx context.Context, msg *message.Message) (string, error) {
+	return getIDString(ctx, msg)
+}
+
+// VerifC13GetRawBytes exposes Authenticator.getRawBytes.
+func VerifC13GetRawBytes(ctx context.Context, msg *message.Message, n int) ([]byte, error) {
+	a := &Authenticator{}
+	return a.getRawBytes(ctx, msg, n)
+}
+
+// VerifC13MaxNameLen exposes AUTH_PW_MAX_NAME_LEN.
+const VerifC13MaxNameLen = AUTH_PW_MAX_NAME_LEN
+
+// VerifC13MaxSciTokenSize exposes the SciToken size bound.
+const VerifC13MaxSciTokenSize = maxSciTokenSize
+
+// VerifC13SciTokenServer is the server side of the SciToken exchange on s: a TLS
+// server over CEDARTLSConnection (as performTLSHandshake builds it).  Handshake
+// completes the TLS handshake; Exchange then runs exchangeSciToken.
+type VerifC13SciTokenServer struct {
+	ssl *SSLAuthenticator
+}
+
+func NewVerifC13SciTokenServer(ctx context.Context, s *stream.Stream, cert tls.Certificate) *VerifC13SciTokenServer {
+	a := &Authenticator{config: &SecurityConfig{}, stream: s}
+	ssl := NewSSLAuthenticator(a)
+	cedarConn := &CEDARTLSConnection{ctx: ctx, authenticator: a, isClient: false,
+		readBuffer: make([]byte, 0), writeBuffer: make([]byte, 0), clientStatus: AuthSSLOK, serverStatus: AuthSSLOK}
+	ssl.tlsConn = tls.Server(cedarConn, &tls.Config{Certificates: []tls.Certificate{cert},
+		MinVersion: tls.VersionTLS12, MaxVersion: tls.VersionTLS12})
+	return &VerifC13SciTokenServer{ssl: ssl}
+}
+
+func (v *VerifC13SciTokenServer) Handshake() error { return v.ssl.tlsConn.Handshake() }
+
+func (v *VerifC13SciTokenServer) Exchange(ctx context.Context) (string, error) {
+	return v.ssl.exchangeSciToken(ctx, &SecurityNegotiation{IsClient: false}, "")
+}
